@@ -602,6 +602,43 @@ Proof.
     apply connect1_err in E. subst s'. rewrite with_cn_id in H. now inversion H.
 Qed.
 
+(* n(x=b): the call-keyword form.  The pull that follows an accepted connection can only
+   raise CircularDataFlowError / ValueError / KeyError, so any other exception is the refusal. *)
+Lemma dg_nodes_exn W s nodes todo e : dg_nodes W s nodes todo = Some e -> e = KeyErr \/ e = CircErr.
+Proof.
+  induction todo as [|v r IH]; simpl; [discriminate|].
+  destruct (existsb _ (ups W s v)); [inversion 1; auto|].
+  destruct (memn v (ups W s v)); [inversion 1; auto|auto].
+Qed.
+
+Lemma pull_exn W st n order s' e : pull W st n order = (s', Err e) -> e = KeyErr \/ e = CircErr \/ e = ValueErr.
+Proof.
+  unfold pull. destruct (cyclic_up W (cn st) n); [inversion 1; auto|].
+  destruct (disc_phase W (cn st) _) as [s1 pairs].
+  destruct (digraph_check W st s1 _) as [e'|] eqn:E.
+  - inversion 1; subst. unfold digraph_check in E.
+    destruct (same_parents st _); [|inversion E; auto].
+    apply dg_nodes_exn in E. tauto.
+  - match goal with |- context [kahn ?a ?b ?c ?d ?e ?f] => destruct (kahn a b c d e f) end;
+      inversion 1; auto.
+Qed.
+
+Theorem refused_call_noop W st n k v tree st' e :
+  step W st (OCall n [(k, v)] tree) = (st', Err e) ->
+  e = TypeErr \/ e = ConnErr \/ e = AmbigErr \/ e = AttrErr -> st' = st.
+Proof.
+  intros H He. cbn [step] in H.
+  destruct (set_inputs W (cn st) n [(k, v)]) as [s1 [|e1]] eqn:E.
+  - unfold lift in H. destruct (pull W (with_cn st s1) n tree) as [s2 [|e2]] eqn:Ep; simpl in H; [discriminate|].
+    inversion H; subst. apply pull_exn in Ep.
+    destruct Ep as [Ee | [Ee | Ee]]; rewrite Ee in He; destruct He as [Hq | [Hq | [Hq | Hq]]]; discriminate.
+  - inversion H; subst. clear H.
+    unfold set_inputs in E. destruct (forallb _ _); [|inversion E; subst; apply with_cn_id].
+    simpl in E. destruct (find_chan W n Data DIn k); [|inversion E; subst; apply with_cn_id].
+    destruct (assign W (cn st) n0 v) as [s' [|e']] eqn:Ea; [discriminate|].
+    inversion E; subst. apply assign_err in Ea. subst. apply with_cn_id.
+Qed.
+
 Lemma disconnect_unconnected s a bs : (forall b, In b bs -> ~ In b (conns s a)) -> disconnect s a bs = (s, []).
 Proof.
   induction bs as [|b r IH]; intros H; simpl; auto.
